@@ -94,6 +94,10 @@ def _stats(res, need_distinct=2):
         raise Precondition("statistics over cells whose value is undecidable")
     if len(set(vals)) < need_distinct:
         raise Precondition("fewer than %d distinct valid values" % need_distinct)
+    if not res.exact and need_distinct >= 2 and close(min(vals), max(vals)):
+        # computed values that differ only at the level of rounding noise: the implementation may well hold a constant
+        # array (e.g. both cells clamped to the same bound), for which the statistics are degenerate
+        raise Precondition("valid values are indistinguishable (within 1e-9)")
     return vals
 
 
@@ -219,7 +223,7 @@ def _mean_to_mid(inp, ignore_zeros, normals):
                 raise Precondition("cannot decide which cells are zero")
             if d != 0:
                 pool.append(v)
-        if len(set(pool)) < 2:
+        if len(set(pool)) < 2 or (not inp.exact and close(min(pool), max(pool))):
             raise Precondition("fewer than two distinct non-zero values")
     m = _mean(pool)
     below, above = [], []
